@@ -126,6 +126,11 @@ func Shrink(p *Program, budget int, fails func(*Program) bool) *Program {
 				c.WGDep = false
 				cands = append(cands, c)
 			}
+			if o.Kind == "loop" && o.WaveDep > 0 {
+				c := o
+				c.WaveDep = 0
+				cands = append(cands, c)
+			}
 			if o.Kind == "sload" && o.Rep > 2 {
 				c := o
 				c.Rep = o.Rep / 2
